@@ -101,6 +101,8 @@ def generate(seed, scratch, nvariants=3, hashseeds=None):
     r = core.rng_for(seed, "gen")
     world, cfg = gen.gen_world(r, "c14")
     rs = core.rng_for(seed, "sched")
+    if cfg.get("cbi_config"):
+        gen.apply_user_compiler(world, core.rng_for(seed, "ucc"))
     if rs.random() < 0.2:
         bw = boundary_world(core.rng_for(seed, "boundary"))
         if bw is not None:
